@@ -6,6 +6,7 @@ sys.path.insert(0, os.path.join(os.path.dirname(os.path.abspath(__file__)), ".."
 from engine import facts
 fs = set()
 adts = {}
+shapes = {}
 sigs = {}
 for cfg in ("std", "alloc", "core"):
     f, _ = facts.extract(cfg)
@@ -17,10 +18,11 @@ for cfg in ("std", "alloc", "core"):
             except (IndexError, KeyError):
                 pass
     for a in f["adts"]:
+        shapes.setdefault(a["cpath"], [[f["types"][x["ty"]]["s"] for x in v["fields"]] for v in a.get("variants", [])])
         if len(a.get("variants", [])) == 1 and a["variants"][0]["fields"]:
             adts.setdefault(a["cpath"], [[x["name"], f["types"][x["ty"]]["s"]] for x in a["variants"][0]["fields"]])
 head = subprocess.check_output(["git", "-C", facts.REPO, "rev-parse", "HEAD"], text=True).strip()
 out = os.path.join(os.path.dirname(os.path.abspath(__file__)), "..", "engine", "vocabulary.json")
 json.dump({"_comment": "crate-local functions of the pinned tree; calls to any other crate-local sync function are inlined before analysis",
-           "repo_head": head, "functions": sorted(fs), "adts": adts, "signatures": sigs}, open(out, "w"), indent=0)
+           "repo_head": head, "functions": sorted(fs), "adts": adts, "adt_shapes": shapes, "signatures": sigs}, open(out, "w"), indent=0)
 print(len(fs), "functions")
